@@ -411,6 +411,40 @@ fn sharing_case(i: u64) -> CaseOut {
 	}
 }
 
+/// A default of an omitted parameter is an argument like any other: evaluated at most once per call however often the
+/// body (or another default) uses it — also when the function is called by the library (std.map & co. bind the
+/// parameters by another route than a call expression).  (program, value, number of `D` traces = number of calls)
+const NATIVE_CALL_DEFAULTS: &[(&str, &str, usize)] = &[
+	("std.map(function(x, d=std.trace('D', 10)) d + d + x, [1, 2, 3])", "[21,22,23]", 3),
+	("std.map(function(x, d=std.trace('D', 1), e=d + d) e + d, [0])", "[3]", 1),
+	("std.makeArray(2, function(i, d=std.trace('D', 1)) [d, d, d])", "[[1,1,1],[1,1,1]]", 2),
+	("std.filter(function(x, d=std.trace('D', 1)) d == d && x > 0, [1, 2])", "[1,2]", 2),
+	("std.foldl(function(a, b, d=std.trace('D', 0)) a + b + d + d, [1, 2], 0)", "3", 2),
+	("std.foldr(function(a, b, d=std.trace('D', 0)) a + b + d + d, [1, 2], 0)", "3", 2),
+	("std.mapWithKey(function(k, v, d=std.trace('D', 1)) d + d + v, { a: 1, b: 2 })", "{\"a\":3,\"b\":4}", 2),
+	("std.flatMap(function(x, d=std.trace('D', 1)) [d, d], [1, 2])", "[1,1,1,1]", 2),
+	("std.mapWithIndex(function(i, x, d=std.trace('D', 5)) [d, d, i], ['a'])", "[[5,5,0]]", 1),
+	("std.filterMap(function(x, d=std.trace('D', true)) d && d, function(x, d=std.trace('D', 1)) d + d, [7])", "[2]", 2),
+	("local f(x, d=std.trace('D', 1)) = d + d + x; [f(1), std.map(f, [1])[0]]", "[3,3]", 2),
+];
+fn native_default_case(i: u64) -> CaseOut {
+	let (code, want, calls) = NATIVE_CALL_DEFAULTS[i as usize];
+	let (out, traces) = jr::eval_traced(code, &Opts::default());
+	let n = traces.iter().filter(|t| t.1 == "D").count();
+	let mut problems = vec![];
+	if !matches!(&out, jr::Outcome::Val(v) if v == want) {
+		problems.push(format!("expected {want}, got {}", out.short()));
+	}
+	if n > calls {
+		problems.push(format!("the default was evaluated {n} times in {calls} calls"));
+	}
+	if problems.is_empty() {
+		CaseOut::pass(code.to_owned(), true).class("native-call-default")
+	} else {
+		CaseOut::fail(code.to_owned(), problems.join("\n"))
+	}
+}
+
 pub fn run(run: &Run) {
 	run.set_rule("type-directed programs that evaluate to a value, with every local right-hand side, argument, default, if-branch, &&/|| right operand, array element, object field body and object local wrapped as std.trace(\"L<k>\", e). Oracles: (1) labels the reference never forces are never traced by jrsonnet, and planting `error` or a runaway recursion there leaves the result unchanged; (2) no label is traced more often than by the reference, which shares exactly locals, arguments, array elements and object fields per (object, name, layer); (3) adding tailstrict to calls never changes an existing result; plus eight hand-built sharing families (a lost memo cell shows as 2^16 or k-fold traces). Non-trivial = at least one unneeded labelled sub-term and one label evaluated exactly once; distinct by program text.");
 	run.assume("reference interpreter harness/src/model.rs defines what is needed and what is shared; arguments of std.* calls are not instrumented (library strictness is C10/C13)");
@@ -424,6 +458,7 @@ pub fn run(run: &Run) {
 		}
 	});
 	run.enumerate("sharing-families", 8, sharing_case);
+	run.enumerate("native-call-defaults", NATIVE_CALL_DEFAULTS.len() as u64, native_default_case);
 	let n = run.tier.pick(240_000, 2_400_000);
 	run.explore("programs", n, 20..=400, |src| {
 		let p = gen_eval::program(src, 5, 60, 2, 0, 0);
@@ -447,6 +482,7 @@ pub fn replay(run: &Run, stage: &str, tape: Option<&[u16]>, v: &Value) -> Option
 		("programs-large", Some(t)) => Some(check(run, &gen_eval::program(&mut Src::new(t), 7, 150, 1, 0, 0).closed())),
 		("tailstrict", Some(t)) => Some(tailstrict_case(run, &mut Src::new(t))),
 		("sharing-families", _) => Some(sharing_case(v["extra"]["index"].as_u64()?)),
+		("native-call-defaults", _) => Some(native_default_case(v["extra"]["index"].as_u64()?)),
 		_ => None,
 	}
 }
